@@ -57,3 +57,41 @@ def relevant(conjuncts, seeds):
                     cur |= s
                     changed = True
     return chosen
+
+
+# ------------------------------------------------------------ second opinion
+def cross_check(conjuncts, neg_goal, timeout_s=10, exe='/usr/bin/cvc5'):
+    """Ask cvc5 (CLI, SMT-LIB 2 text produced by z3) whether
+    conjuncts /\\ neg_goal is satisfiable.  Returns 'unsat' | 'sat' |
+    'unknown' | 'error'.  Used in the thorough tier: a `proved` verdict of z3
+    that cvc5 contradicts with `sat` is reported as a checker error."""
+    import subprocess, tempfile, os
+    idx = relevant(list(conjuncts), symbols(neg_goal))
+    s = z3.Solver()
+    for i in sorted(idx):
+        s.add(conjuncts[i])
+    s.add(neg_goal)
+    text = s.to_smt2()
+    logic = '(set-logic ALL)\n'
+    fd, path = tempfile.mkstemp(suffix='.smt2')
+    try:
+        with os.fdopen(fd, 'w') as f:
+            f.write(logic + text)
+        try:
+            p = subprocess.run([exe, '--lang', 'smt2', '--tlimit=%d' % (
+                timeout_s * 1000), path], capture_output=True, text=True,
+                timeout=timeout_s + 5)
+        except subprocess.TimeoutExpired:
+            return 'unknown'
+        out = (p.stdout or '').strip().split('\n')[0].strip()
+        if out in ('sat', 'unsat', 'unknown'):
+            return out
+        if 'interrupted' in (p.stdout + p.stderr) or 'timeout' in (
+                p.stdout + p.stderr).lower():
+            return 'unknown'
+        return 'error'
+    finally:
+        try:
+            os.remove(path)
+        except OSError:
+            pass
